@@ -63,7 +63,8 @@ impl Run for Args {
             for (x, y) in codeword.iter().zip(codeword_buf.iter_mut()) {
                 *y = x.is_one().into();
             }
-            output.write_all(&codeword_buf)?;
+            // The codeword is shorter than the buffer if it has been punctured
+            output.write_all(&codeword_buf[..codeword.len()])?;
         }
         Ok(())
     }
